@@ -85,6 +85,21 @@ Step(s, e) ==
             ELSE IF e.sub = "pluseq"
             THEN Res(e.dst, RepMul(E[e.dst].M, P400(ExpM(GHat(g, T[e.a]))), e.count), E[e.dst].n + 2 * e.count)
             ELSE <<E, T, Fail("TOOL.unknown_op", e.sub, "")>>
+       [] e.op = "lift" ->
+            \* lift_so3 / lift_se3 (one operation) followed by project_so2 / project_se2 (a second one): the lifted
+            \* element is the embedding of the exact value (rotation about z, z-translation 0), the projection is the
+            \* exact value again
+            LET lg == IF g.k = "SO2" THEN [k |-> "SO3"] ELSE [k |-> "SE3"]
+                X == E[e.a].M
+                d == Dim(g)
+                Emb == IF g.k = "SO2"
+                       THEN << <<X[1][1], X[1][2], R0>>, <<X[2][1], X[2][2], R0>>, <<R0, R0, R1>> >>
+                       ELSE << <<X[1][1], X[1][2], R0, X[1][3]>>, <<X[2][1], X[2][2], R0, X[2][3]>>,
+                               <<R0, R0, R1, R0>>, <<R0, R0, R0, R1>> >>
+                le == [e EXCEPT !.g = lg]
+                r == Res(e.dst, X, E[e.a].n + 2)
+            IN IF g.k \notin {"SO2", "SE2"} THEN <<E, T, Fail("TOOL.unknown_op", "lift on " \o g.k, "")>>
+               ELSE <<r[1], r[2], ElemChecks(le, e.lifted, Emb, Sat(E[e.a].n + 1)) \o r[3]>>
        [] e.op = "ode" ->
             \* constant body velocity v for time T: x0 * exp(T v); every stage is one rplus (exp + compose)
             Res(e.dst, P400(MMul(E[e.a].M, ExpM(MScale(D(e.T), GHat(g, T[e.b]))))),
